@@ -148,3 +148,71 @@ pub fn fault_counts(o: &mut crate::props::RunOut, ops: &[Op]) {
 pub fn continuous_outputs_in(outs: &[OutEv], from: u64, to: u64) -> usize {
     outs.iter().filter(|e| e.t >= from && e.t < to && matches!(e.kind, OutKind::Scroll | OutKind::MouseMove)).count()
 }
+
+/// Which conjunct of the idle predicate is false (diagnostic for reports).
+pub fn idle_breakdown(k: &kanata_state_machine::Kanata) -> String {
+    use kanata_keyberon::layout::State;
+    let l = k.layout.b();
+    let mut v: Vec<String> = vec![];
+    if !l.queue.is_empty() {
+        v.push(format!("queue.len={}", l.queue.len()));
+    }
+    if l.waiting.is_some() {
+        v.push("waiting".into());
+    }
+    if !l.extra_waiting.is_empty() {
+        v.push(format!("extra_waiting={}", l.extra_waiting.len()));
+    }
+    if l.last_press_tracker.tap_hold_timeout != 0 {
+        v.push("tap_hold_timeout".into());
+    }
+    if !(l.oneshot.timeout == 0 || l.oneshot.keys.is_empty()) {
+        v.push(format!("oneshot(timeout={},keys={})", l.oneshot.timeout, l.oneshot.keys.len()));
+    }
+    if !l.active_sequences.is_empty() {
+        v.push("active_sequences".into());
+    }
+    if l.tap_dance_eager.is_some() {
+        v.push("tap_dance_eager".into());
+    }
+    if !l.action_queue.is_empty() {
+        v.push("action_queue".into());
+    }
+    if !k.sequence_state.is_inactive() {
+        v.push("sequence_state".into());
+    }
+    if k.scroll_state.is_some() || k.hscroll_state.is_some() {
+        v.push("scroll_state".into());
+    }
+    if k.move_mouse_state_vertical.is_some() || k.move_mouse_state_horizontal.is_some() {
+        v.push("move_mouse_state".into());
+    }
+    if k.macro_on_press_cancel_duration != 0 {
+        v.push("macro_on_press_cancel_duration".into());
+    }
+    if k.dynamic_macro_replay_state.is_some() {
+        v.push("dynamic_macro_replay".into());
+    }
+    if k.caps_word.is_some() {
+        v.push("caps_word".into());
+    }
+    if !k.vkeys_pending_release.is_empty() {
+        v.push("vkeys_pending_release".into());
+    }
+    if !k.waiting_for_idle.is_empty() {
+        v.push("waiting_for_idle".into());
+    }
+    if l.states.iter().any(|s| matches!(s, State::SeqCustomPending(_) | State::SeqCustomActive(_))) {
+        v.push("seq_custom_state".into());
+    }
+    if let Some(c) = l.chords_v2.as_ref() {
+        if !c.is_idle_chv2() {
+            v.push("chords_v2_not_idle".into());
+        }
+        if !c.accepts_chords_chv2() {
+            v.push("chords_v2_cooldown".into());
+        }
+    }
+    v.push(format!("states={}", l.states.len()));
+    v.join(",")
+}
